@@ -756,6 +756,9 @@ inductive Step where
   | count (name : String)
   /-- `lena.flow.Slice(n)` in a fill sequence: `LenaStopFill` when value number `n` arrives -/
   | stop (n : Nat)
+  /-- user Run element, last of a plain sequence: after the values of every `run(flow)` it yields a new value
+  `(-1, {"end": k})`, `k` = number of runs so far (so it yields for an empty flow, too) -/
+  | emit
   deriving Repr, DecidableEq
 
 /-- `subdict = context; for key in keys[:-1]: if key not in subdict or not isinstance(subdict[key],
@@ -857,6 +860,7 @@ def applyStep (ns : Nat) (e : Step) (n : Nat) (x : HItem) : M (Nat × Option HIt
   | .stop m =>
     -- Slice.fill_into: the value with index `m` raises LenaStopFill; earlier ones are passed on
     if n ≥ m then pure (n, none) else pure (n + 1, some x)
+  | .emit => pure (n, some x)
 
 /-- the chain of `_Fill` objects of a `FillSeq`: every element transforms the value and fills the
 next.  Returns the counters of the elements and the value that reaches the end (`none`:
@@ -913,6 +917,12 @@ def splitLastCount (steps : List Step) : List Step × Option String :=
   | some (.count name) => (steps.dropLast, some name)
   | _ => (steps, none)
 
+/-- the steps of a `sequence` branch without a final `emit` element, and whether there is one -/
+def splitLastEmit (steps : List Step) : List Step × Bool :=
+  match steps.getLast? with
+  | some .emit => (steps.dropLast, true)
+  | _ => (steps, false)
+
 /-- a user source: `total` new values `(j, {"src": j})`, `j = 0 … total - 1` -/
 def mkSrc (ns total : Nat) : Nat → List HItem → M (List HItem)
   | 0, acc => pure acc
@@ -938,9 +948,18 @@ def hActM (ns : Nat) (sp : BSpec) (s : HSt) (r : Req Skel) : M (HSt × Resp Skel
     pure ({ s with acc := f.1 }, f.2)
   | .run buf => do
     let sl := splitLastCount sp.steps
-    let q ← runSteps ns sl.1 s.cs buf
+    let se := splitLastEmit sp.steps
+    let q ← runSteps ns (if se.2 then se.1 else sl.1) s.cs buf
     match sl.2 with
-    | none => pure ({ s with cs := q.1 }, { outs := q.2 })
+    | none =>
+      match se.2 with
+      | false => pure ({ s with cs := q.1 }, { outs := q.2 })
+      | true => do
+        -- the user element yields one more, new value after the values of this run
+        let k := se.1.length
+        let runs := (s.cs.drop k).headD 0
+        let c ← allocM ns (.dict [("end", .int runs)])
+        pure ({ s with cs := q.1.take k ++ [runs + 1] }, { outs := q.2 ++ [mkItem (.int (-1)) (some c)] })
     | some name => do
       -- Count.run: self.count += (number of values); the last value gets {name: self.count}
       let k := sl.1.length
